@@ -237,6 +237,15 @@ def c02_witnesses(tier='quick'):
             f'`validate({txt})`: built-in rules next to with/error would be dropped silently; refused')
     add('mixed-twin-custom', pre2 + '#[nutype(validate(with = chk, error = E))]\npub struct T(i32);\n', 'pass', 'twin: with + error alone is accepted')
     add('mixed-twin-builtin', pre2 + '#[nutype(validate(greater_or_equal = 0, less_or_equal = 100))]\npub struct T(i32);\n', 'pass', 'twin: the built-in rules alone are accepted')
+    # a bound of another numeric type cannot be honoured as written: refused (type error), never converted silently
+    pre3 = 'pub const WIDE: i64 = 5_000_000_000;\npub const NARROW: i8 = 5;\npub const FL: f64 = 2.5;\npub const UNS: u32 = 7;\n'
+    for wid, inner, attr in (('wide-const-on-i32', 'i32', 'validate(less = WIDE)'), ('narrow-const-on-i64', 'i64', 'validate(greater = NARROW)'),
+                             ('float-const-on-int', 'i32', 'validate(less = FL)'), ('int-const-on-float', 'f64', 'validate(less = UNS)'),
+                             ('unsigned-const-on-signed', 'i32', 'validate(greater_or_equal = UNS)'), ('f64-const-on-f32', 'f32', 'validate(less = FL)'),
+                             ('usize-len-from-i64', 'String', 'validate(len_char_max = WIDE)')):
+        add('foreign-type-' + wid, pre3 + f'#[nutype({attr})]\npub struct T({inner});\n', {'fail': None, 'msg': None},
+            f'`{attr}` on {inner}: a bound constant of another numeric type is refused, not converted')
+    add('foreign-type-twin', pre3 + '#[nutype(validate(less = WIDE))]\npub struct T(i64);\n', 'pass', 'twin: a constant of the inner type is accepted')
     # stray tokens / missing separators must be refused, not skipped
     for wid, attr in (('stray-after-bound', 'validate(less = 10 20)'), ('stray-ident-after-bound', 'validate(less = 10 unchecked)'),
                       ('missing-comma-validators', 'validate(greater = 1 less = 10)'), ('missing-comma-derive', 'derive(Debug Clone)'),
